@@ -20,6 +20,7 @@ package main
 
 import (
 	"bytes"
+	"crypto/elliptic"
 	"crypto/sha256"
 	"encoding/hex"
 	"fmt"
@@ -36,6 +37,7 @@ import (
 
 	"github.com/33cn/chain33/common/crypto"
 	_ "github.com/33cn/chain33/system"
+	btcecdsa "github.com/btcsuite/btcd/btcec/v2/ecdsa"
 	"github.com/33cn/chain33/types"
 	"github.com/golang/protobuf/proto"
 
@@ -548,7 +550,7 @@ func opCheckSign(h int64, tx *types.Transaction, label string) bool {
 	if res == "panic" {
 		kind := "panic-" + label
 		switch label {
-		case "mut:pubkey-altered", "mut:pubkey-prefix-byte-altered", "mut:type-switched", "mut:pubkey-of-other-key":
+		case "mut:pubkey-altered", "mut:pubkey-prefix-byte-altered", "mut:type-switched", "mut:pubkey-of-other-key", "mut:pubkey-recovered-alternative":
 			kind = "panic-on-invalid-pubkey"
 		}
 		out.Pred("C16|"+name+".CheckSign|"+kind, fmt.Sprintf("h=%d %s %s", h, label, txw.Tok(tx)))
@@ -771,6 +773,77 @@ func pubVariants(r *gen.Rand, pub []byte) []sigVariant {
 	return vs
 }
 
+// recoveredKeys: ECDSA public-key recovery.  For an honest (r, s) over msg there are up to four
+// public keys under which the SAME signature verifies the SAME message; every one different from
+// the signer's key is an "altered public key" the property says must be rejected.
+func recoveredKeys(name string, msg, pub, sig []byte) [][]byte {
+	r, sv, ok := parseDER(sig)
+	if !ok {
+		return nil
+	}
+	h := sha256.Sum256(msg)
+	var out [][]byte
+	add := func(k []byte) {
+		if k == nil || bytes.Equal(k, pub) {
+			return
+		}
+		for _, o := range out {
+			if bytes.Equal(o, k) {
+				return
+			}
+		}
+		out = append(out, k)
+	}
+	switch name {
+	case "secp256k1":
+		for rec := 0; rec < 4; rec++ {
+			c := make([]byte, 65)
+			c[0] = byte(27 + 4 + rec)
+			rb, sb := r.Bytes(), sv.Bytes()
+			if len(rb) > 32 || len(sb) > 32 {
+				return nil
+			}
+			copy(c[33-len(rb):33], rb)
+			copy(c[65-len(sb):65], sb)
+			gen.Guard(func() string {
+				if k, _, err := btcecdsa.RecoverCompact(c, h[:]); err == nil && k != nil {
+					add(k.SerializeCompressed())
+				}
+				return ""
+			})
+		}
+	case "secp256r1":
+		cv := elliptic.P256()
+		P, N, B := cv.Params().P, cv.Params().N, cv.Params().B
+		if r.Sign() <= 0 || r.Cmp(P) >= 0 {
+			return nil
+		}
+		// y^2 = x^3 - 3x + b
+		y2 := new(big.Int).Exp(r, big.NewInt(3), P)
+		y2.Sub(y2, new(big.Int).Mul(big.NewInt(3), r))
+		y2.Add(y2, B).Mod(y2, P)
+		y := new(big.Int).ModSqrt(y2, P)
+		if y == nil {
+			return nil
+		}
+		e := new(big.Int).SetBytes(h[:])
+		rinv := new(big.Int).ModInverse(r, N)
+		for _, ry := range []*big.Int{y, new(big.Int).Sub(P, y)} {
+			sx, sy := cv.ScalarMult(r, ry, sv.Bytes())
+			ex, ey := cv.ScalarBaseMult(e.Bytes())
+			ey = new(big.Int).Sub(P, ey)
+			ax, ay := cv.Add(sx, sy, ex, ey)
+			qx, qy := cv.ScalarMult(ax, ay, rinv.Bytes())
+			k := make([]byte, 33)
+			k[0] = byte(2 + qy.Bit(0))
+			xb := qx.Bytes()
+			copy(k[33-len(xb):], xb)
+			add(k)
+		}
+	}
+	return out
+}
+
 // heightsAround: interesting heights for a driver enabled from eh (or disabled).
 func heightsAround(eh int64, enabled bool) []int64 {
 	if !enabled || eh < 0 {
@@ -856,6 +929,12 @@ func phaseSign(r *gen.Rand, signers []txw.Signer, reg map[string]txw.DrvInfo, pe
 				t2 := txw.Copy(tx)
 				t2.Signature.Pubkey = pv.sig
 				opCheckSign(hOK, t2, "mut:"+pv.kind)
+			}
+			// the other public keys ECDSA recovery yields for this very signature and message
+			for _, k := range recoveredKeys(s.Name, txw.SignBytesObserved(tx), tx.Signature.Pubkey, tx.Signature.Signature) {
+				t2 := txw.Copy(tx)
+				t2.Signature.Pubkey = k
+				opCheckSign(hOK, t2, "mut:pubkey-recovered-alternative")
 			}
 			// another key's public key
 			{
